@@ -43,6 +43,10 @@ def configs(tier):
                 if "note" in fields and header == 0 and preset in ("delimited", "ods"):
                     # the same under a data format that allows ASCII only: the restriction applies to every field, also to free text without length
                     result.append(dict(config, allowed=[[32, 126, False]]))
+                if "const" in fields and header == 0 and preset in ("delimited", "fixed"):
+                    # allowed characters written with quoted capital letters ("A"..."Z"): the value of that property is case sensitive
+                    result.append(dict(config, allowed=[[32, 32, True], [46, 57, False], [65, 90, False], [97, 122, False]], allowed_quoted=True))
+                    result.append(dict(config, allowed=[[32, 32, True], [46, 57, False], [97, 122, False]], allowed_quoted=True))
     return result
 
 
